@@ -225,6 +225,14 @@ def check_siblings(ctx, fxs):
             if expect is not None and have == (expect & set(cfgs)):
                 ctx.note("observation: %s exists only in %s (cfg-gated)" % (root, sorted(have)))
                 continue
+            # a cfg-gated helper that only runtime-specific code uses (the smol spawner's `take_blocking`) is part of that
+            # runtime's spawner, wherever it is written
+            users = set()
+            for c in have:
+                users |= {u for u in graph.caller_roots(fxs[c]).get(root, set()) if u != root}
+            if users and all(not indep(u) for u in users):
+                ctx.note("observation: %s exists only in %s and is used only by runtime-specific code %s" % (root, sorted(have), sorted(users)))
+                continue
             ctx.viol("R18.3", "same-program:" + name, "runtime-independent function exists only in configurations %s" % sorted(have), fn=name)
             continue
         ds = {tables[c][name] for c in cfgs}
